@@ -7,7 +7,7 @@ use syn::visit_mut::{self, VisitMut};
 use syn::{parse_quote, Expr};
 
 #[derive(Default)]
-pub struct Rules { pub outlined: BTreeMap<String, usize>, pub dropped: BTreeMap<String, usize>, pub renamed: BTreeMap<String, usize> }
+pub struct Rules { pub outlined: BTreeMap<String, usize>, pub dropped: BTreeMap<String, usize>, pub renamed: BTreeMap<String, usize>, pub extra_drop_derives: Vec<String> }
 
 const DROP_DERIVES: &[&str] = &["Serialize", "Deserialize", "Derivative", "EnumString", "EnumVariantNames", "Display", "Debug"];
 
@@ -19,7 +19,7 @@ pub fn clean_attrs(attrs: &mut Vec<syn::Attribute>, rules: &mut Rules) {
         if p == "derive" {
             let mut keep: Vec<syn::Path> = vec![];
             let mut structural = false;
-            let _ = a.parse_nested_meta(|m| { let n = m.path.to_token_stream().to_string(); if DROP_DERIVES.contains(&n.as_str()) { *rules.dropped.entry(format!("derive:{}", n)).or_default() += 1; } else { if n == "PartialEq" { structural = true; } keep.push(m.path.clone()); } Ok(()) });
+            let _ = a.parse_nested_meta(|m| { let n = m.path.to_token_stream().to_string(); if DROP_DERIVES.contains(&n.as_str()) || rules.extra_drop_derives.contains(&n) { *rules.dropped.entry(format!("derive:{}", n)).or_default() += 1; } else { if n == "PartialEq" { structural = true; } keep.push(m.path.clone()); } Ok(()) });
             if structural { keep.push(parse_quote!(Structural)); }
             if !keep.is_empty() { out.push(parse_quote!(#[derive(#(#keep),*)])); }
             continue;
@@ -29,6 +29,17 @@ pub fn clean_attrs(attrs: &mut Vec<syn::Attribute>, rules: &mut Rules) {
     *attrs = out;
 }
 
+pub fn strip_derives(attrs: &mut Vec<syn::Attribute>, names: &[&str]) {
+    let mut out = vec![];
+    for a in attrs.drain(..) {
+        if a.path().is_ident("derive") {
+            let mut keep: Vec<syn::Path> = vec![];
+            let _ = a.parse_nested_meta(|m| { let n = m.path.to_token_stream().to_string(); if !names.contains(&n.as_str()) { keep.push(m.path.clone()); } Ok(()) });
+            if !keep.is_empty() { out.push(parse_quote!(#[derive(#(#keep),*)])); }
+        } else { out.push(a); }
+    }
+    *attrs = out;
+}
 pub fn sig_rules(sig: &mut syn::Signature, rules: &mut Rules) {
     struct T<'a> { rules: &'a mut Rules }
     impl<'a> VisitMut for T<'a> { fn visit_type_mut(&mut self, t: &mut syn::Type) { visit_mut::visit_type_mut(self, t); refcell_type(t, self.rules); } }
@@ -89,6 +100,9 @@ impl<'a> VisitMut for BodyRules<'a> {
             if name == "clone" && m.receiver.to_token_stream().to_string().contains("var_deps") { let a = &m.receiver;
                 self.outline("__o_hashset_clone"); repl = Some(parse_quote!(__o_hashset_clone(&#a))); }
             if name == "pow" && m.args.len() == 1 && is_lit_2usize(&m.receiver) { let a = m.args.first().unwrap(); self.outline("__o_pow2"); repl = Some(parse_quote!(__o_pow2(#a))); }
+            // O: `X.len().try_into().expect(MSG)` (u64 -> usize)
+            if name == "expect" { if let Expr::MethodCall(ti) = &*m.receiver { if ti.method == "try_into" && ti.args.is_empty() { if let Expr::MethodCall(ln) = &*ti.receiver { if ln.method == "len" {
+                let inner = (*ti.receiver).clone(); self.outline("__o_u64_to_usize"); repl = Some(parse_quote!(__o_u64_to_usize(#inner))); } } } } }
             if name == "to_vec" && m.args.is_empty() { let a = &m.receiver; self.outline("__o_to_vec"); repl = Some(parse_quote!(__o_to_vec(#a))); }
             if name == "concat" && m.args.is_empty() { if let Expr::Array(arr) = &*m.receiver { if arr.elems.len() == 2 { let a = &arr.elems[0]; let b = &arr.elems[1];
                 self.outline("__o_concat2"); repl = Some(parse_quote!(__o_concat2(#a, #b))); } } }
@@ -118,6 +132,18 @@ impl<'a> VisitMut for BodyRules<'a> {
     }
     fn visit_local_mut(&mut self, l: &mut syn::Local) {
         visit_mut::visit_local_mut(self, l);
+        // O: `let x: u32 = E.try_into().expect(MSG);`  ->  `let x: u32 = __o_usize_to_u32(E);` (std: panics unless E fits)
+        if let syn::Pat::Type(pt) = &l.pat {
+            if pt.ty.to_token_stream().to_string() == "u32" {
+                if let Some(init) = &mut l.init {
+                    if let Expr::MethodCall(ex) = &*init.expr { if ex.method == "expect" { if let Expr::MethodCall(ti) = &*ex.receiver { if ti.method == "try_into" && ti.args.is_empty() {
+                        let inner = (*ti.receiver).clone();
+                        *init.expr = parse_quote!(__o_usize_to_u32(#inner));
+                        *self.rules.outlined.entry("__o_usize_to_u32".into()).or_default() += 1;
+                    } } } }
+                }
+            }
+        }
         // R: a local that owned a former cell and is mutated through it needs `mut`; a local bound to
         // `cell.borrow_mut()` becomes a `&mut` reborrow of the field
         // R2: a shared borrow of a Copy element held across calls that need `&mut self` becomes a copy
